@@ -280,6 +280,18 @@ def Tree.wfWith (S : Tree) (bfs idx rootLeaves : List Id) : Bool :=
 
 def Tree.wf (S : Tree) : Bool := S.wfWith S.bfs S.index (S.leaves S.root)
 
+/-- the node that structurally owns `c` (the first node in walk order that lists `c` among its children) -/
+def Tree.structParent (S : Tree) (c : Id) : Option Id := S.bfs.find? fun p => (S.kids p).contains c
+
+/-- **the C08 link invariant, as far as diff.py depends on it**: the `.parent` pointer of every node of the tree is the
+    node that structurally owns it (and the root has none).  `_generate_edit_script` decides Move by comparing `.parent`
+    objects and `_parent_similarity_score` climbs them, so the model's guarantees about copies are stated UNDER this
+    assumption on both inputs; the harness checks it on every real input tree (correspondence stage) and the driver
+    checks it on every shipped tree. -/
+def Tree.linkedB (S : Tree) : Bool :=
+  let bfs := S.bfs
+  bfs.all fun c => S.parent c == bfs.find? fun p => (S.kids p).contains c
+
 def lookup (m : List (Id × Id)) (k : Id) : Option Id := (m.find? fun p => p.1 == k).map (·.2)
 
 /-- `_lcs`, one row.  The table of diff.py is indexed by PREFIXES of the two sequences; read on the reversed sequences
